@@ -53,6 +53,10 @@ CHECKS = {
    technique="deterministic simulation: seeded search over generated API-call programs, builder configurations and per-call write-acceptance/pend patterns of the transport; history check of the complete per-stream byte logs by a reference RFC 9114 parser",
    text="Generated programs (1-4 exchanges in both roles, empty and multi-chunk buffers, trailers, streams abandoned mid-body, split halves, server shutdown(n) and client shutdown at drawn moments, drawn builder options) run on real h3 endpoints over SimQuic, which accepts writes down to one byte at a time, splits frame headers, pends and withholds stream credit. Afterwards every byte either endpoint wrote on every stream is parsed with the reference codecs: legal uni stream types, SETTINGS first and only allowed frames on the control stream (never finished/reset), only complete HEADERS/DATA/reserved frames in legal order on request streams, length fields consistent, reserved identifiers of the 0x1f*N+0x21 form, no HTTP/2 types or settings, GOAWAY ids non-increasing, DATA payloads concatenating to exactly what send_data was given, HEADERS decoding to what was submitted, and no misuse of the transport traits (overlapping send_data). Sampling, not proof.",
    note="Trusted: checks/wire.rs (reference validator), refs::frames/qpack/varint, SimQuic's byte logs. Futures are awaited to completion except accept(), which is cancelled for shutdown(n) as in the documented select pattern."),
+ "C18": dict(level="exploration", engine="E1", design_ref="DESIGN.md §5 C18",
+   technique="deterministic simulation: systematic sweep of stream ids 4k (k in 0..2^16 by run index) plus boundary and drawn ids, seeded payloads, seeded consumption patterns of the encoded buffer by the simulated transport, unreliable datagram delivery (drop/duplicate/reorder); oracle: wire bytes vs varint(S/4)||P from the reference varint codec, received (S,P) vs sent, H3_DATAGRAM_ERROR as connection outcome for malformed raw datagrams",
+   text="Real h3 client and server with the datagram extension exchange HTTP Datagrams over SimQuic's unreliable datagram channel in either direction: the transport consumes the EncodedDatagram Buf in drawn ways (whole chunks, copy_to_bytes, byte-wise, drawn sizes), and drops, duplicates and reorders datagrams. Every datagram handed to the transport equals varint(S/4) || P; everything the peer's DatagramReader returns is the (S,P) of a datagram that was sent (none invented, duplicates only where injected, nothing lost without an injected drop). Raw byte strings of length 0..9 (lengths 0-1 exhaustively, a systematic slice of length 2, drawn longer ones incl. truncated varints and quarter ids >= 2^60) injected by a scripted peer must decode like the reference or fail with H3_DATAGRAM_ERROR, which then is the driver's result and the effective close code. Ids swept systematically, schedules sampled.",
+   note="Trusted: refs::varint, SimQuic datagram channel, simexec. The Quinn datagram adapter is outside this check (see C17)."),
 }
 
 NOT_APPLICABLE = {
